@@ -1,3 +1,581 @@
-import HapVerif.Model.C17
+import HapVerif.Lemmas.C17
+import HapVerif.Generated.Facts
+/-!
+# C17 — ACME: certificates requested exactly when needed; the queue tracks Ingress changes
+
+Models (`HapVerif.Model.C17`), all three tied to the Go code by the differential run of
+`harness/c17` (real `acme.signer`, real `AcmeStorages`/`config.Clear`/`Commit`/`Instance.AcmeUpdate`,
+real ingress converter + tracker):
+
+* `notify`      = `signer.Notify`/`verify`/`match`
+* `cycle`       = what one reconciliation does to the acme storages and the queue
+* `convCycle`   = which storages the ingress converter removes/re-acquires per sync
+
+Three places where the code does not meet the property are kept visible below: the full-strength
+statement in a comment, the `_partial` theorem with its side condition, and a kernel-checked
+counter-example on the model (the same inputs are in the harness corpus):
+
+1. `full-sync-vanished-storage-not-removed` — `config.Clear()` drops the storages object
+2. `changed-storage-not-enqueued` — the converter mutates an existing storage in place
+3. `empty-domain-set-requested` — a storage without domains asks for the name ""
+-/
 namespace HapVerif.C17
+
+/-! ## (a) signer: certificates are requested exactly when needed -/
+
+/-! covers -/
+theorem covers_self (d : Name) (h : d ≠ [""]) : coversOne d d = true := by
+  unfold coversOne
+  have : (d == [""]) = false := by simpa using h
+  simp only [this, Bool.false_eq_true, if_false]
+  by_cases hw : isWild d = true
+  · simp [hw]
+  · simp [hw]
+
+theorem covers_wildcard (l : String) (rest : Name) (hl : l ≠ "*") (hr : rest ≠ []) :
+    coversOne ("*" :: rest) (l :: rest) = true := by
+  unfold coversOne isWild
+  have h1 : ((l :: rest) == [""]) = false := by
+    cases rest with
+    | nil => exact absurd rfl hr
+    | cons a t => simp
+  cases rest with
+  | nil => exact absurd rfl hr
+  | cons a t => simp [hl]
+
+theorem covers_wildcard_shape (rest d : Name) (hd : isWild d = false)
+    (h : coversOne ("*" :: rest) d = true) : rest ≠ [] ∧ ∃ l, d = l :: rest := by
+  unfold coversOne at h
+  by_cases h0 : (d == [""]) = true
+  · simp [h0] at h
+  · simp only [h0, Bool.false_eq_true, if_false, hd] at h
+    have hw : isWild ("*" :: rest) = true := by simp [isWild]
+    simp only [hw, if_true, List.tail_cons, Bool.and_eq_true, Bool.not_eq_true', List.isEmpty_eq_false_iff,
+      beq_iff_eq] at h
+    refine ⟨h.1.1, ?_⟩
+    cases d with
+    | nil => exact absurd rfl h.1.2
+    | cons a t => exact ⟨a, by simp at h; rw [h.2]⟩
+
+theorem covers_wild_declared (san d : Name) (hd : isWild d = true) (h : coversOne san d = true) : san = d := by
+  unfold coversOne at h
+  by_cases h0 : (d == [""]) = true
+  · simp [h0] at h
+  · simpa [h0, hd] using h
+
+theorem covers_exact (san d : Name) (hs : isWild san = false) (h : coversOne san d = true) : san = d := by
+  unfold coversOne at h
+  by_cases h0 : (d == [""]) = true
+  · simp [h0] at h
+  · by_cases hd : isWild d = true
+    · simpa [h0, hd] using h
+    · simpa [h0, hd, hs] using h
+
+theorem covered_of_mem (sans : List Name) (d : Name) (hm : d ∈ sans) (h : d ≠ [""]) : covered sans d = true := by
+  unfold covered
+  exact List.any_eq_true.mpr ⟨d, hm, covers_self d h⟩
+
+
+theorem itemDomains_of_ne {l : List Name} (h : l ≠ []) : itemDomains l = l := by
+  unfold itemDomains; cases l with
+  | nil => exact absurd rfl h
+  | cons a t => rfl
+
+theorem reasonOf_none_iff (i : VIn) (ds : List Name) :
+    reasonOf i ds = none ↔ ∃ na sans, i.secret = .cert na sans ∧ ¬ na < i.now + i.window ∧ matchAll ds sans = true := by
+  unfold reasonOf
+  cases hs : i.secret with
+  | missing => simp
+  | cert na sans =>
+    simp only [Secret.cert.injEq]
+    constructor
+    · intro h
+      by_cases h1 : na < i.now + i.window
+      · simp [h1] at h
+      · simp only [h1, if_false] at h
+        by_cases h2 : matchAll ds sans = true
+        · exact ⟨na, sans, ⟨rfl, rfl⟩, h1, h2⟩
+        · simp [h2] at h
+    · rintro ⟨na', sans', ⟨rfl, rfl⟩, h1, h2⟩
+      simp [h1, h2]
+
+theorem signed_iff_reason (i : VIn) :
+    (notify i).signed.isSome = true ↔ i.acct = true ∧ reasonOf i (itemDomains i.declared) ≠ none := by
+  unfold notify
+  by_cases ha : i.acct = true
+  · simp only [ha, Bool.not_true, Bool.false_eq_true, if_false, true_and]
+    cases hr : reasonOf i (itemDomains i.declared) with
+    | none => simp
+    | some r => by_cases hk : (i.sign.crt && i.sign.key) = true <;> simp [hk]
+  · simp [ha]
+
+theorem needed_iff (i : VIn) :
+    needed i = true ↔ i.secret = .missing ∨
+      ∃ na sans, i.secret = .cert na sans ∧ (na < i.now + i.window ∨ ∃ d ∈ i.declared, covered sans d = false) := by
+  unfold needed
+  cases hs : i.secret with
+  | missing => simp
+  | cert na sans =>
+    simp only [Bool.or_eq_true, decide_eq_true_eq, Bool.not_eq_true', Secret.cert.injEq, false_or, reduceCtorEq,
+      List.all_eq_false, Bool.not_eq_true]
+    constructor
+    · rintro (h | h)
+      · exact ⟨na, sans, ⟨rfl, rfl⟩, Or.inl h⟩
+      · exact ⟨na, sans, ⟨rfl, rfl⟩, Or.inr h⟩
+    · rintro ⟨na', sans', ⟨rfl, rfl⟩, h⟩
+      exact h
+
+/-- **sign_iff** (for a non-empty declared domain set): with an account, `Client.Sign` is called
+iff the secret is missing/unreadable, or `NotAfter < now + window` (strict), or some declared
+domain is not covered by the certificate. -/
+theorem sign_iff_partial (i : VIn) (hd : i.declared ≠ []) :
+    (notify i).signed.isSome = true ↔ i.acct = true ∧
+      (i.secret = .missing ∨ ∃ na sans, i.secret = .cert na sans ∧
+        (na < i.now + i.window ∨ ∃ d ∈ i.declared, covered sans d = false)) := by
+  rw [signed_iff_reason, itemDomains_of_ne hd, ← needed_iff]
+  constructor
+  · rintro ⟨ha, hr⟩
+    refine ⟨ha, ?_⟩
+    cases hn : needed i with
+    | true => rfl
+    | false =>
+      exfalso; apply hr
+      rw [reasonOf_none_iff]
+      unfold needed at hn
+      cases hs : i.secret with
+      | missing => simp [hs] at hn
+      | cert na sans =>
+        simp only [hs, Bool.or_eq_false_iff, decide_eq_false_iff_not, Bool.not_eq_false'] at hn
+        exact ⟨na, sans, rfl, hn.1, hn.2⟩
+  · rintro ⟨ha, hn⟩
+    refine ⟨ha, ?_⟩
+    intro hr
+    rw [reasonOf_none_iff] at hr
+    obtain ⟨na, sans, hs, h1, h2⟩ := hr
+    unfold needed at hn
+    simp only [hs, Bool.or_eq_true, decide_eq_true_eq, Bool.not_eq_true'] at hn
+    rcases hn with h | h
+    · exact h1 h
+    · unfold matchAll at h2; rw [h2] at h; cases h
+
+theorem signed_domains (i : VIn) (ds : List Name) (h : (notify i).signed = some ds) :
+    ds = itemDomains i.declared := by
+  unfold notify at h
+  by_cases ha : i.acct = true
+  · simp only [ha, Bool.not_true, Bool.false_eq_true, if_false] at h
+    cases hr : reasonOf i (itemDomains i.declared) with
+    | none => simp [hr] at h
+    | some r =>
+      simp only [hr] at h
+      cases hk : (i.sign.crt && i.sign.key) <;> simp [hk] at h <;> exact h.symm
+  · simp [ha] at h
+
+/-- **store_only_both**: the secret is written iff `Sign` was called and returned both a
+certificate and a key (a warning-level `err` next to both does not prevent the write) -/
+theorem store_only_both (i : VIn) :
+    (notify i).written = true ↔ (notify i).signed.isSome = true ∧ i.sign.crt = true ∧ i.sign.key = true := by
+  unfold notify
+  by_cases ha : i.acct = true
+  · simp only [ha, Bool.not_true, Bool.false_eq_true, if_false]
+    cases hr : reasonOf i (itemDomains i.declared) with
+    | none => simp
+    | some r =>
+      cases hk : (i.sign.crt && i.sign.key) <;> simp [hk] <;> simpa using hk
+  · simp [ha]
+
+
+/- Full-strength statement (does NOT hold, see `sign_iff_fails_for_empty_domain_set`):
+
+   theorem sign_iff (i : VIn) : (notify i).signed.isSome = true ↔ i.acct = true ∧ (i.secret = .missing ∨ ...)
+
+   It needs `i.declared ≠ []`: `buildAcmeStorages` renders an empty domain set as "name,chain," and
+   `Notify` splits that into the single domain "", which no certificate covers. -/
+
+def emptyWitness : VIn :=
+  { acct := true, secret := .cert 100 [["a", "x"]], now := 0, window := 10, declared := [],
+    sign := ⟨true, true, false⟩, setErr := false }
+
+/-- counter-example: valid, not expiring certificate, no declared domain — nothing is needed, yet
+`Sign([""])` is called and its result stored -/
+theorem sign_iff_fails_for_empty_domain_set :
+    needed emptyWitness = false ∧ (notify emptyWitness).signed = some [[""]] ∧
+    (notify emptyWitness).written = true := by decide
+
+/-- a valid certificate that covers every declared domain is never re-requested and the secret
+is not written -/
+theorem valid_never_rerequested (i : VIn) (na : Int) (sans : List Name) (hd : i.declared ≠ [])
+    (hs : i.secret = .cert na sans) (ht : i.now + i.window ≤ na)
+    (hc : ∀ d ∈ i.declared, covered sans d = true) :
+    (notify i).signed = none ∧ (notify i).written = false := by
+  have h1 : ¬ (notify i).signed.isSome = true := by
+    rw [sign_iff_partial i hd]
+    rintro ⟨_, h | ⟨na', sans', h, h2⟩⟩
+    · rw [hs] at h; cases h
+    · rw [hs] at h; cases h
+      rcases h2 with h2 | ⟨d, hm, h2⟩
+      · omega
+      · rw [hc d hm] at h2; cases h2
+  have h2 : ¬ (notify i).written = true := fun h => h1 ((store_only_both i).mp h).1
+  constructor
+  · cases h : (notify i).signed with
+    | none => rfl
+    | some _ => rw [h] at h1; exact absurd rfl h1
+  · cases h : (notify i).written with
+    | false => rfl
+    | true => exact absurd h h2
+
+/-- the expiry test is strict: a certificate whose `NotAfter` is exactly `now + window` is kept … -/
+theorem boundary_equal_kept (i : VIn) (sans : List Name) (hd : i.declared ≠ [])
+    (hs : i.secret = .cert (i.now + i.window) sans) (hc : ∀ d ∈ i.declared, covered sans d = true) :
+    (notify i).signed = none :=
+  (valid_never_rerequested i _ sans hd hs (Int.le_refl _) hc).1
+
+/-- … and one nanosecond less is renewed -/
+theorem boundary_minus_one_renewed (i : VIn) (na : Int) (sans : List Name) (hd : i.declared ≠ [])
+    (ha : i.acct = true) (hs : i.secret = .cert na sans) (ht : na + 1 = i.now + i.window) :
+    (notify i).signed = some i.declared := by
+  have h : (notify i).signed.isSome = true := by
+    rw [sign_iff_partial i hd]
+    exact ⟨ha, Or.inr ⟨na, sans, hs, Or.inl (by omega)⟩⟩
+  cases hx : (notify i).signed with
+  | none => rw [hx] at h; cases h
+  | some ds => rw [signed_domains i ds hx, itemDomains_of_ne hd]
+
+/-- a certificate whose SAN list contains every declared name (a superset) is not re-requested -/
+theorem superset_not_rerequested (i : VIn) (na : Int) (sans : List Name) (hd : i.declared ≠ [])
+    (hs : i.secret = .cert na sans) (ht : i.now + i.window ≤ na)
+    (hsub : ∀ d ∈ i.declared, d ∈ sans ∧ d ≠ [""]) : (notify i).signed = none :=
+  (valid_never_rerequested i na sans hd hs ht (fun d hm => covered_of_mem sans d (hsub d hm).1 (hsub d hm).2)).1
+
+/-- a declared name that no SAN covers (the certificate covers only a subset) is re-requested, with
+the whole declared set -/
+theorem subset_rerequested (i : VIn) (na : Int) (sans : List Name) (d : Name)
+    (ha : i.acct = true) (hs : i.secret = .cert na sans) (hm : d ∈ i.declared) (hc : covered sans d = false) :
+    (notify i).signed = some i.declared := by
+  have hd : i.declared ≠ [] := by intro e; rw [e] at hm; cases hm
+  have h : (notify i).signed.isSome = true := by
+    rw [sign_iff_partial i hd]
+    exact ⟨ha, Or.inr ⟨na, sans, hs, Or.inr ⟨d, hm, hc⟩⟩⟩
+  cases hx : (notify i).signed with
+  | none => rw [hx] at h; cases h
+  | some ds => rw [signed_domains i ds hx, itemDomains_of_ne hd]
+
+/-- without an account nothing is read, requested or written -/
+theorem no_account_nothing (i : VIn) (h : i.acct = false) :
+    (notify i).got = false ∧ (notify i).signed = none ∧ (notify i).written = false := by
+  unfold notify; simp [h]
+
+/-! non-vacuity: wildcard one label deep is covered, two labels deep is not; boundary cases -/
+example : coversOne ["*", "dev", "local"] ["s3", "dev", "local"] = true := by decide
+example : coversOne ["*", "dev", "local"] ["other", "s3", "dev", "local"] = false := by decide
+example : coversOne ["*", "dev", "local"] ["dev", "local"] = false := by decide
+example : coversOne ["*", "dev", "local"] ["*", "dev", "local"] = true := by decide
+example : coversOne ["a", "dev", "local"] ["*", "dev", "local"] = false := by decide
+example : (notify { acct := true, secret := .cert 10 [["a", "x"]], now := 3, window := 7, declared := [["a", "x"]],
+    sign := ⟨true, true, false⟩, setErr := false }).signed = none := by decide
+example : (notify { acct := true, secret := .cert 10 [["a", "x"]], now := 4, window := 7, declared := [["a", "x"]],
+    sign := ⟨true, true, false⟩, setErr := false }) =
+    { got := true, signed := some [["a", "x"]], written := true, err := false, metric := some (.expiring, true) } := by decide
+example : (notify { acct := true, secret := .cert 10 [["a", "x"]], now := 0, window := 7, declared := [["a", "x"], ["b", "x"]],
+    sign := ⟨true, false, true⟩, setErr := false }) =
+    { got := true, signed := some [["a", "x"], ["b", "x"]], written := false, err := true, metric := some (.outdated, false) } := by decide
+
+/-! ## (b) the queue follows the storages -/
+
+/-- **queue_follows** for one partial (incremental) cycle on the leader: the queue gets an `Add`
+for exactly the storages that are new or whose (chain, domain set) differs from before the cycle,
+and a `Remove` for exactly the former items that are gone or changed. -/
+theorem queue_follows_cycle_partial (s : Storages) (c : Cycle)
+    (hadd : s.add = []) (hdel : s.del = []) (hp : c.full = false) (hwf : c.wf s)
+    (hl : c.leader = true) (ha : c.acct = true) :
+    (∀ n x, QOp.add n x ∈ (cycle s c).2 ↔
+        find (cycle s c).1.items n = some x ∧ find s.items n ≠ some x) ∧
+    (∀ n x, QOp.remove n x ∈ (cycle s c).2 ↔
+        find s.items n = some x ∧ find (cycle s c).1.items n ≠ some x) := by
+  have inv := preUpdate_inv s c hadd hp hwf
+  have hud : Uniq (preUpdate s c).del := by
+    rw [inv.del]; apply removeAll_uniq_del; rw [hdel]; exact uniq_nil
+  have hdel0 : ∀ k, find (preUpdate s c).del k = if k ∈ c.dirty then find s.items k else none := by
+    intro k; rw [inv.del]; exact removeAll_del s c.dirty k hdel
+  have hit0 : ∀ k, find (removeAll s c.dirty).items k = if k ∈ c.dirty then none else find s.items k :=
+    fun k => removeAll_items s c.dirty k
+  rw [cycle_ops_leader s c hl ha, cycle_items]
+  constructor
+  · intro n x
+    rw [mem_ops_add, mem_iff_find (shrink_uniq_add inv.uadd), shrink_add, hdel0]
+    constructor
+    · rintro ⟨h1, h2⟩
+      refine ⟨inv.same n x h1, ?_⟩
+      intro hs
+      have hf := inv.fresh n (by rw [h1]; simp)
+      rw [hit0] at hf
+      by_cases hd : n ∈ c.dirty
+      · simp only [hd, if_true] at h2; exact h2 hs
+      · simp only [hd, if_false] at hf; rw [hf] at hs; cases hs
+    · rintro ⟨h1, h2⟩
+      cases hx : find (preUpdate s c).add n with
+      | none =>
+        have := inv.keep n hx
+        rw [h1, hit0] at this
+        by_cases hd : n ∈ c.dirty
+        · simp [hd] at this
+        · simp only [hd, if_false] at this; exact absurd this.symm h2
+      | some y =>
+        have := inv.same n y hx
+        rw [h1] at this; cases this
+        refine ⟨rfl, ?_⟩
+        by_cases hd : n ∈ c.dirty
+        · simp only [hd, if_true]; exact h2
+        · simp [hd]
+  · intro n x
+    rw [mem_ops_remove, mem_iff_find (shrink_uniq_del hud), shrink_del, hdel0]
+    constructor
+    · rintro ⟨h1, h2⟩
+      by_cases hd : n ∈ c.dirty
+      · simp only [hd, if_true] at h1
+        refine ⟨h1, ?_⟩
+        intro hs
+        cases hx : find (preUpdate s c).add n with
+        | none =>
+          have := inv.keep n hx
+          rw [hs, hit0] at this; simp [hd] at this
+        | some y =>
+          have := inv.same n y hx
+          rw [hs] at this; cases this
+          exact h2 hx
+      · simp [hd] at h1
+    · rintro ⟨h1, h2⟩
+      by_cases hd : n ∈ c.dirty
+      · simp only [hd, if_true]
+        refine ⟨h1, ?_⟩
+        intro hx
+        exact h2 (inv.same n x hx)
+      · exfalso
+        cases hx : find (preUpdate s c).add n with
+        | none =>
+          have := inv.keep n hx
+          rw [hit0] at this; simp only [hd, if_false] at this
+          rw [h1] at this; exact h2 this
+        | some y =>
+          have := inv.fresh n (by rw [hx]; simp)
+          rw [hit0] at this; simp only [hd, if_false] at this
+          rw [h1] at this; cases this
+
+
+/-- incremental syncs do not re-enqueue (nor remove) an unchanged storage -/
+theorem unchanged_not_reenqueued (s : Storages) (c : Cycle)
+    (hadd : s.add = []) (hdel : s.del = []) (hp : c.full = false) (hwf : c.wf s)
+    (hl : c.leader = true) (ha : c.acct = true) (n : String) (x : Cert)
+    (h0 : find s.items n = some x) (h1 : find (cycle s c).1.items n = some x) :
+    QOp.add n x ∉ (cycle s c).2 ∧ QOp.remove n x ∉ (cycle s c).2 := by
+  have h := queue_follows_cycle_partial s c hadd hdel hp hwf hl ha
+  exact ⟨fun hm => ((h.1 n x).mp hm).2 h0, fun hm => ((h.2 n x).mp hm).2 h1⟩
+
+/-- non-leaders enqueue nothing -/
+theorem nonleader_enqueues_nothing (s : Storages) (c : Cycle) (h : c.leader = false) : (cycle s c).2 = [] := by
+  unfold cycle acmeUpdate; simp [h]
+
+/-- without an ACME account nothing is enqueued either -/
+theorem noaccount_enqueues_nothing (s : Storages) (c : Cycle) (h : c.acct = false) : (cycle s c).2 = [] := by
+  unfold cycle acmeUpdate
+  cases c.leader <;> simp [h]
+
+/-- a full sync on the leader (the code that exists): every storage of the new state is enqueued,
+nothing is ever removed — the old storages object, hence what vanished, is gone after `Clear()` -/
+theorem queue_full_cycle (s : Storages) (c : Cycle) (hf : c.full = true)
+    (hl : c.leader = true) (ha : c.acct = true) :
+    (∀ n x, QOp.add n x ∈ (cycle s c).2 ↔ find (cycle s c).1.items n = some x) ∧
+    (∀ n x, QOp.remove n x ∉ (cycle s c).2) := by
+  have hpre : preUpdate s c = applyAcqs {} c.acqs := by unfold preUpdate clear; simp [hf]
+  have inv : AcqInv {} (preUpdate s c) := by
+    rw [hpre]
+    apply applyAcqs_inv
+    · exact ⟨rfl, fun _ _ => rfl, fun k x h => by simp [find] at h, fun k h => by simp [find] at h, uniq_nil⟩
+    · intro a _; rfl
+  have hdel : (preUpdate s c).del = [] := inv.del
+  rw [cycle_ops_leader s c hl ha, cycle_items]
+  constructor
+  · intro n x
+    rw [mem_ops_add, mem_iff_find (shrink_uniq_add inv.uadd), shrink_add, hdel]
+    constructor
+    · rintro ⟨h1, _⟩; exact inv.same n x h1
+    · intro h1
+      refine ⟨?_, by simp [find]⟩
+      cases hx : find (preUpdate s c).add n with
+      | none => have := inv.keep n hx; rw [h1] at this; simp [find] at this
+      | some y => have := inv.same n y hx; rw [h1] at this; cases this; rfl
+  · intro n x
+    rw [mem_ops_remove]
+    have : (shrink (preUpdate s c)).del = [] := by unfold shrink; simp [hdel]
+    rw [this]; simp
+
+/-! ### histories -/
+
+/-- what the queue sees in one cycle, as the code behaves: `prev`/`new` are the storages before and
+after the cycle -/
+def SpecCycle (prev new : SMap) (c : Cycle) (o : List QOp) : Prop :=
+  if c.leader = true ∧ c.acct = true then
+    if c.full = true then
+      (∀ n x, QOp.add n x ∈ o ↔ find new n = some x) ∧ (∀ n x, QOp.remove n x ∉ o)
+    else
+      (∀ n x, QOp.add n x ∈ o ↔ find new n = some x ∧ find prev n ≠ some x) ∧
+      (∀ n x, QOp.remove n x ∈ o ↔ find prev n = some x ∧ find new n ≠ some x)
+  else o = []
+
+def Follows : Storages → List Cycle → List (List QOp) → Prop
+  | _, [], os => os = []
+  | _, _ :: _, [] => False
+  | s, c :: cs, o :: os => SpecCycle s.items (cycle s c).1.items c o ∧ Follows (cycle s c).1 cs os
+
+/-- every cycle of the history respects the converter contract -/
+def wfHist : Storages → List Cycle → Prop
+  | _, [] => True
+  | s, c :: cs => c.wf s ∧ wfHist (cycle s c).1 cs
+
+/- Full-strength statement (does NOT hold for full syncs, see `full_sync_vanished_not_removed`):
+
+   theorem queue_follows : ... → Follows' s cs (runCycles s cs).2
+     where for EVERY cycle on the leader  adds ⊇ new ∖ prev,  removes = prev ∖ new
+
+   A full sync replaces the storages object (`config.Clear()` -> `createConfig`), so the entries
+   that disappear with it are never passed to `AcmeQueue.Remove`. -/
+
+/-- **queue_follows** over all histories of reconciliation cycles (partial and full, leader or not,
+with or without account) that start from a committed state and respect the converter contract:
+on the leader a partial cycle adds exactly the storages that appeared or changed and removes
+exactly the items that disappeared or changed; unchanged ones are not touched; a non-leader
+enqueues nothing; a full sync enqueues everything and removes nothing. -/
+theorem queue_follows_partial (cs : List Cycle) :
+    ∀ (s : Storages), s.add = [] → s.del = [] → wfHist s cs → Follows s cs (runCycles s cs).2 := by
+  induction cs with
+  | nil => intro s _ _ _; rfl
+  | cons c cs ih =>
+    intro s hadd hdel hw
+    simp only [runCycles, Follows]
+    refine ⟨?_, ih _ (cycle_committed s c).1 (cycle_committed s c).2 hw.2⟩
+    unfold SpecCycle
+    by_cases hla : c.leader = true ∧ c.acct = true
+    · simp only [hla, and_self, if_true]
+      by_cases hf : c.full = true
+      · simp only [hf, if_true]; exact queue_full_cycle s c hf hla.1 hla.2
+      · have hf' : c.full = false := by simpa using hf
+        simp only [hf', Bool.false_eq_true, if_false]
+        exact queue_follows_cycle_partial s c hadd hdel hf' hw.1 hla.1 hla.2
+    · simp only [hla, if_false]
+      by_cases hl : c.leader = true
+      · have : c.acct = false := by
+          cases h : c.acct with
+          | false => rfl
+          | true => exact absurd ⟨hl, h⟩ hla
+        exact noaccount_enqueues_nothing s c this
+      · exact nonleader_enqueues_nothing s c (by simpa using hl)
+
+/-- counter-example for full syncs: `s1` is declared, then a full sync without it — no `Remove` -/
+theorem full_sync_vanished_not_removed :
+    let c1 : Cycle := ⟨true, true, true, [], [⟨"s1", "", ["h1.x"]⟩]⟩
+    let c2 : Cycle := ⟨true, true, true, [], []⟩
+    let s1 := (cycle {} c1).1
+    find s1.items "s1" = some ⟨"", ["h1.x"]⟩ ∧ find (cycle s1 c2).1.items "s1" = none ∧
+    (cycle s1 c2).2 = [] ∧
+    oracleCycle true true true s1.items (cycle s1 c2).1.items (cycle s1 c2).2 =
+      some "full-sync-vanished-storage-not-removed" := by decide +kernel
+
+/-- non-vacuity of `queue_follows_partial`: a history with an appearing, a changing, an unchanged
+and a disappearing storage -/
+example :
+    let h : List Cycle :=
+      [⟨true, true, true, [], [⟨"s1", "", ["h1.x"]⟩, ⟨"s2", "", ["h2.x"]⟩]⟩,
+       ⟨false, true, true, ["s1", "s2"], [⟨"s1", "", ["h1.x", "h3.x"]⟩, ⟨"s2", "", ["h2.x"]⟩, ⟨"s3", "X1", ["h4.x"]⟩]⟩,
+       ⟨false, false, true, ["s3"], []⟩,
+       ⟨false, true, true, ["s2"], []⟩]
+    wfHist {} h ∧ (runCycles {} h).2 =
+      [[.add "s2" ⟨"", ["h2.x"]⟩, .add "s1" ⟨"", ["h1.x"]⟩],
+       [.add "s3" ⟨"X1", ["h4.x"]⟩, .add "s1" ⟨"", ["h1.x", "h3.x"]⟩, .remove "s1" ⟨"", ["h1.x"]⟩],
+       [],
+       [.remove "s2" ⟨"", ["h2.x"]⟩]] := by decide +kernel
+
+/-! ## (c) the ingress converter feeding the storages -/
+
+theorem acmeUpdate_items (l a : Bool) (s : Storages) : (acmeUpdate l a s).1.items = s.items := by
+  unfold acmeUpdate
+  cases l <;> cases a <;> rfl
+
+/-- after a full sync the storages are exactly what the ingress world declares -/
+theorem conv_full_items (s : ConvSt) (c : ConvCycle) (hf : c.full = true) :
+    (convCycle s c).1.st.items = declared c.world := by
+  unfold convCycle convPlan
+  simp only [hf, if_true]
+  rw [cycle_items]
+  unfold preUpdate declared clear
+  simp
+
+/-- if the plan the converter produces respects the contract, the queue follows (instance of
+`queue_follows_cycle_partial`) -/
+theorem conv_follows_if_wf (s : ConvSt) (c : ConvCycle) (hadd : s.st.add = []) (hdel : s.st.del = [])
+    (hp : c.full = false) (hl : c.leader = true) (ha : c.acct = true)
+    (hwf : (convPlan s c).1.wf s.st) :
+    (∀ n x, QOp.add n x ∈ (convCycle s c).2 ↔
+        find (convCycle s c).1.st.items n = some x ∧ find s.st.items n ≠ some x) ∧
+    (∀ n x, QOp.remove n x ∈ (convCycle s c).2 ↔
+        find s.st.items n = some x ∧ find (convCycle s c).1.st.items n ≠ some x) := by
+  have h1 : (convPlan s c).1.full = false := by unfold convPlan; simp [hp]
+  have h2 : (convPlan s c).1.leader = true := by unfold convPlan; simp [hp, hl]
+  have h3 : (convPlan s c).1.acct = true := by unfold convPlan; simp [hp, ha]
+  exact queue_follows_cycle_partial s.st (convPlan s c).1 hadd hdel h1 hwf h2 h3
+
+/- Full-strength statement (does NOT hold, see `inplace_change_not_enqueued`): for every history of
+   ingress worlds the plan of every partial sync respects the contract, hence
+   `oracleConv [] h (runConv {} h).2 = none`.
+
+   `trackAddedIngress` pre-tracks only host names and backends of an added/updated ingress, not
+   its acme storages: an ingress that starts to use a secret another (unchanged) ingress already
+   uses reaches `Acquire` of an existing, un-removed storage and extends it in place; the storage is
+   not in `itemsAdd`, nothing is enqueued until the next full sync / periodic check. -/
+
+def wA : World := [⟨"i1", "r1.x", true, "", [⟨"s1", ["r1.x"]⟩]⟩]
+def wB : World := wA ++ [⟨"i2", "r2.x", true, "", [⟨"s1", ["r2.x"]⟩]⟩]
+
+/-- counter-example: a second ingress sharing the TLS secret is added by a partial sync -/
+theorem inplace_change_not_enqueued :
+    let h : List ConvCycle := [⟨true, true, true, wA⟩, ⟨false, true, true, wB⟩]
+    let s1 := (convCycle {} ⟨true, true, true, wA⟩).1
+    ¬ (convPlan s1 ⟨false, true, true, wB⟩).1.wf s1.st ∧
+    declared wB = [("s1", ⟨"", ["r1.x", "r2.x"]⟩)] ∧
+    (runConv {} h).2 = [[.add "s1" ⟨"", ["r1.x"]⟩], []] ∧
+    oracleConv [] h (runConv {} h).2 = some "changed-storage-not-enqueued" := by decide +kernel
+
+/-- the same two worlds through a full sync: enqueued (non-vacuity of the oracle) -/
+example : oracleConv [] [⟨true, true, true, wA⟩, ⟨true, true, true, wB⟩]
+    (runConv {} [⟨true, true, true, wA⟩, ⟨true, true, true, wB⟩]).2 = none := by decide +kernel
+
+/-- deleting the sharing ingress again is tracked: old item removed, new one added -/
+example : (runConv {} [⟨true, true, true, wB⟩, ⟨false, true, true, wA⟩]).2 =
+    [[.add "s1" ⟨"", ["r1.x", "r2.x"]⟩], [.add "s1" ⟨"", ["r1.x"]⟩, .remove "s1" ⟨"", ["r1.x", "r2.x"]⟩]] := by
+  decide +kernel
+
+/-! ## facts regenerated from the Go source on every run -/
+
+/-- the decision, the strict `Before`, the due date, the write guard, `VerifyHostname` per domain,
+`DeepEqual` in shrink, `Clear()` carrying over only the backends, the leader/account guards of
+`AcmeUpdate`, and the pre-tracking that knows nothing about acme storages -/
+theorem facts_c17 :
+    Facts.c17VerifyConds = ["errSecret != nil || tls.Crt.NotAfter.Before(duedate) || !match(domains, tls.Crt)",
+      "errSecret != nil", "tls.Crt.NotAfter.Before(duedate)", "crt != nil && key != nil", "err != nil", "errTLS == nil"] ∧
+    Facts.c17VerifyDue = ["duedate := time.Now().Add(s.expiring)"] ∧
+    Facts.c17MatchBody = ["found := false",
+      "for _, domain := range domains {\n\tfound = crt.VerifyHostname(domain) == nil\n\tif !found {\n\t\treturn false\n\t}\n}",
+      "return true"] ∧
+    Facts.c17ShrinkConds = ["found && reflect.DeepEqual(add, del)"] ∧
+    Facts.c17AcquireConds = ["!found"] ∧
+    Facts.c17AcquireAssigns = ["storage, found := c.items[name]",
+      "storage = &AcmeCerts{\n\tcerts: map[string]struct{}{},\n}", "c.items[name] = storage", "c.itemsAdd[name] = storage"] ∧
+    Facts.c17RemoveAllBody = ["for _, name := range names {\n\tif item, found := c.items[name]; found {\n\t\tc.itemsDel[name] = item\n\t\tdelete(c.items, name)\n\t}\n}"] ∧
+    Facts.c17CommitBody = ["c.itemsAdd = map[string]*AcmeCerts{}", "c.itemsDel = map[string]*AcmeCerts{}"] ∧
+    Facts.c17ClearBody = ["config := createConfig(c.options)", "config.backends = c.backends", "config.backends.Clear()", "*c = *config"] ∧
+    Facts.c17AcmeUpdateConds = ["i.config == nil || i.options.AcmeQueue == nil", "le.IsLeader()", "!hasAccount", "storages.Updated()"] ∧
+    Facts.c17AcmeUpdateCalls = [".Storages", "i.config.AcmeData", "le.IsLeader", "i.acmeEnsureConfig", "i.config.AcmeData",
+      "storages.BuildAcmeStoragesAdd", "i.acmeAddStorage", "storages.BuildAcmeStoragesDel", "i.acmeRemoveStorage",
+      "storages.Updated", "i.logger.InfoV", "le.LeaderName"] ∧
+    Facts.c17PreTrackContexts = ["convtypes.ResourceHABackend", "ctx", "convtypes.ResourceHABackend"] := by decide
+
 end HapVerif.C17
